@@ -12,7 +12,9 @@ A *closure* is a dict
 Protocol sent to `drv_emit` (identifiers are interned to numbers, `padding_<k>_` is 1000000+k):
     T <table> ...                      the native tables, once
     CASE <id> <autoPad> <documented> <skipHdr>
+    FILE <core>                        start of the next file of the closure (parse order, imports first)
     ITEM <core> <kind> ...             the closure flattened in parse order, lengths evaluated
+    YAML sec <k> <n> | <item>          the real combined YAML, section by section in file order (canonical lines)
     OUTCOME ok | err <alignment|tooLarge|syntax|internal>
     REG a|s|m ...                      aliases / structs / messages of the real Parser object
     REG2 ...                           the same after re-parsing the combined YAML
@@ -220,7 +222,9 @@ def core_closure() -> Dict[str, Any]:
     return CORE_CACHE["cl"]
 
 
-def item_lines(cl: Dict[str, Any], I: Interner, hashes: Dict[str, str]) -> List[str]:
+def item_lines(cl: Dict[str, Any], I: Interner, hashes: Dict[str, str], with_files: bool = False) -> List[str]:
+    """ITEM lines in parse order; with_files: a `FILE <core>` line before the items of each file (the driver rebuilds the
+    file-by-file closure `Model/Combined.lean` works on from them)"""
     L: List[str] = []
     groups: List[Tuple[int, List[Tuple[str, Dict[str, Any]]]]] = []
     if cl.get("coredefs"):
@@ -229,6 +233,8 @@ def item_lines(cl: Dict[str, Any], I: Interner, hashes: Dict[str, str]) -> List[
     groups.append((0, flatten(cl)))
     for core, files in groups:
         for fn, fs in files:
+            if with_files:
+                L.append(f"FILE {core}")
             for n, e, v in fs.get("constants", []):
                 if isinstance(v, float):
                     L.append(f"ITEM {core} const {I(n)} f {struct.unpack('<Q', struct.pack('<d', v))[0]}")
@@ -258,8 +264,73 @@ def item_lines(cl: Dict[str, Any], I: Interner, hashes: Dict[str, str]) -> List[
                     L.append(f"ITEM {core} message {I(n)} {mid} {h} {spec(fields)}")
             for rid in reserved_ids(fs.get("reserved", [])):
                 n = f"_RESERVED_{rid:06d}"
-                L.append(f"ITEM {core} signal {I(n)} {rid} {int(hashes.get('m:' + n, '0'), 16)}")
+                L.append(f"ITEM {core} reserved {I(n)} {rid} {int(hashes.get('m:' + n, '0'), 16)}")
     return L
+
+
+# ------------------------------------------------------------------------------------------------
+# the real combined YAML -> canonical lines (what `Drv/Emit.lean: yamlLines` prints for the model)
+# ------------------------------------------------------------------------------------------------
+SECTION_NO = {"constants": 0, "string_constants": 1, "aliases": 2, "host_ids": 3, "module_ids": 4, "struct_defs": 5,
+              "message_defs": 6}
+
+
+def combined_lines(text: str, I: Interner) -> Tuple[List[str], Dict[str, Any]]:
+    """Read `<name>_combined.yaml` with ruamel's safe loader (not with pyrtma's parser), keep the key order of the file,
+    evaluate constant and array-length expressions with gen_core's arithmetic evaluator (constants in file order), expand
+    the `_RESERVED_` id list in place.  Returns (lines, notes); notes = what is outside the model (metadata, options)."""
+    from ruamel.yaml import YAML
+    from . import gen_core
+    data = YAML(typ="safe").load(text)
+    notes: Dict[str, Any] = {"keys": list(data.keys()), "imports": data.get("imports"),
+                             "compiler_options": dict(data.get("compiler_options") or {})}
+    env: Dict[str, Any] = {}
+    # constants may be used by any length expression whatever the key order of the file is
+    for n, e in (data.get("constants") or {}).items():
+        env[n] = gen_core.eval_expr(e, env)
+    L: List[str] = [f"opt IMPORT_COREDEFS {1 if notes['compiler_options'].get('IMPORT_COREDEFS', True) else 0}",
+                    f"imports {len(notes['imports'] or [])}"]
+
+    def spec(fd) -> str:
+        if isinstance(fd, str):
+            return f"R {I(fd)}"
+        out = []
+        for fn, sp in (fd or {}).items():
+            m = re.fullmatch(r"\s*([\s\w]*?)\s*(?:\[(.*)\])?", sp)
+            ty, ln = m.group(1).strip(), m.group(2)
+            out.append(f"{I(fn)}:{I(ty)}:{'-' if ln is None else int(gen_core.eval_expr(ln.strip(), env))}")
+        return " ".join(["L"] + out)
+
+    for key, val in data.items():
+        if key not in SECTION_NO:
+            continue
+        k = SECTION_NO[key]
+        rows: List[str] = []
+        for n, v in (val or {}).items():
+            if k == 0:
+                x = env[n]
+                rows.append(f"const {I(n)} " + (f"f {struct.unpack('<Q', struct.pack('<d', x))[0]}" if isinstance(x, float)
+                                                else f"i {x}"))
+            elif k == 1:
+                rows.append(f"str {I(n)} {I(chr(34) + v + chr(34))}")
+            elif k == 2:
+                rows.append(f"alias {I(n)} {I(v)}")
+            elif k == 3:
+                rows.append(f"host {I(n)} {v}")
+            elif k == 4:
+                rows.append(f"mod {I(n)} {v}")
+            elif k == 5:
+                rows.append(f"struct {I(n)} {spec(v['fields'])}")
+            elif n == "_RESERVED_":
+                for rid in reserved_ids(list(v["id"])):
+                    rows.append(f"reserved {I(f'_RESERVED_{rid:06d}')} {rid}")
+            elif v["fields"] is None:
+                rows.append(f"signal {I(n)} {v['id']}")
+            else:
+                rows.append(f"message {I(n)} {v['id']} {spec(v['fields'])}")
+        L.append(f"sec {k} {len(rows)}")
+        L += rows
+    return L, notes
 
 
 # ------------------------------------------------------------------------------------------------
@@ -999,7 +1070,7 @@ def run_closure(cid: str, cl: Dict[str, Any], tmp_root: Path, want: Dict[str, bo
         skip_hdr = (not cl.get("coredefs")) and not has_hdr
         blk = [f"CASE {cid} {1 if cl.get('auto_pad', True) else 0} {1 if cl.get('documented', True) else 0} "
                f"{1 if skip_hdr else 0}"]
-        blk += item_lines(cl, I, hashes)
+        blk += item_lines(cl, I, hashes, with_files=True)
         out = work / "out"
         if outcome == ["ok"]:
             oc2, err2 = real_compile(cl, root, out, python=True, javascript=True, matlab=True, c_lang=True, combined=True)
@@ -1072,6 +1143,12 @@ def run_closure(cid: str, cl: Dict[str, Any], tmp_root: Path, want: Dict[str, bo
                                    f"{','.join(str(f[1]) for f in pc['fields']) or '-'} {pc['sizeof']} {pc['type_size']}")
                     obs["measured"] = len(g["layout"])
             if want.get("roundtrip"):
+                try:
+                    ylines, ynotes = combined_lines((out / "defs_combined.yaml").read_text(), I)
+                except Exception as e:  # noqa: BLE001  (a combined file that is not even YAML any more: observation)
+                    ylines, ynotes = [f"unreadable {type(e).__name__}"], {"error": str(e)[:200]}
+                blk += ["YAML " + y for y in ylines]
+                obs["combined_notes"] = ynotes
                 oc3, p3, err3 = real_parse(cl, out / "defs_combined.yaml", coredefs=False)
                 obs["roundtrip"] = " ".join(oc3) + (" " + err3 if err3 else "")
                 if p3 is not None:
